@@ -239,7 +239,18 @@ func rulePositionNeedsSpatial(c *Ctx) {
 			}
 			// E.Geo().M(…) or E.M(…) (Object.Rect) with E possibly the previous object
 			var e ast.Expr
-			if gc, ok := ast.Unparen(se.X).(*ast.CallExpr); ok {
+			recv := ast.Unparen(se.X)
+			// a local that names the geometry once: selfGeo := obj.Geo()
+			if id, ok := recv.(*ast.Ident); ok {
+				if v := valueOf(info, fi.Decl.Body, id); v != ast.Expr(id) {
+					if gc, ok := ast.Unparen(v).(*ast.CallExpr); ok {
+						if gse, ok := ast.Unparen(gc.Fun).(*ast.SelectorExpr); ok && gse.Sel.Name == "Geo" {
+							recv = gc
+						}
+					}
+				}
+			}
+			if gc, ok := recv.(*ast.CallExpr); ok {
 				if gse, ok := ast.Unparen(gc.Fun).(*ast.SelectorExpr); ok && gse.Sel.Name == "Geo" {
 					e = gse.X
 				}
